@@ -946,6 +946,19 @@ func (e *Env) call(x *ECall) CV {
 			}
 			return cvOf(v.arrayGet(arg(1).asInt()))
 		}
+	case "closes", "lastclosed":
+		if c := fx.ghost[x.Fn]; c != nil {
+			if v, live := e.st.cells[c]; live {
+				return cvOf(v)
+			}
+			if c.ghostInit != nil {
+				return cvOf(*c.ghostInit)
+			}
+		}
+		if x.Fn == "closes" {
+			return CV{k: cvInt, t: "0"}
+		}
+		unsupp("contract: no channel has been closed")
 	case "cbcalls", "cbarg", "cbres":
 		if fx.ghost == nil {
 			fx.ghost = map[string]*Cell{}
